@@ -164,7 +164,7 @@ def run(ctx):
         import os, re
         vw = [zwcorr.unhx(w).decode() for w in h.words.split()[1:]]
         vset = set(vw)
-        locv = "entry attribute ?(label == (DW_AT_location, DW_AT_frame_base, DW_AT_data_member_location)) value ?(type == T_LOCLIST_ELEM)"
+        locv = "entry attribute ?(label == (DW_AT_location, DW_AT_frame_base, DW_AT_data_member_location, DW_AT_data_location, DW_AT_return_addr, DW_AT_static_link, DW_AT_use_location, DW_AT_vtable_elem_location, DW_AT_segment)) value ?(type == T_LOCLIST_ELEM)"
         fams = {"TAG": ["entry", "abbrev entry"], "AT": ["entry", "entry attribute", "abbrev entry", "abbrev entry attribute"],
                 "FORM": ["entry attribute", "abbrev entry attribute"], "OP": [locv, locv + " elem"]}
         files = [os.path.join(common.REPO, "tests", f) for f in ("nullptr.o", "testfile_const_type")]
